@@ -22,8 +22,15 @@ pub const G_PLOIDY: G = 5;
 pub enum Item {
     /// a record with one result per sample
     Rec { contig: String, pos: usize, g: Vec<G> },
-    /// the source fails here (ReadStatus::Error) and then continues with the next item
-    SourceError { contig: String, pos: usize },
+    /// the source fails here (ReadStatus::Error) and then continues with the next item;
+    /// kind: 0 Other (EIO), 1 UnexpectedEof (stream cut inside a record), 2 InvalidData,
+    /// 3 Interrupted, 4 TimedOut
+    SourceError {
+        contig: String,
+        pos: usize,
+        #[serde(default)]
+        kind: u8,
+    },
     /// the source signals Done here once, then continues (a library caller may go on reading)
     DoneOnce,
 }
@@ -114,7 +121,7 @@ impl genotype::Reader for SimGenotypeSource {
                 match self.items.get(self.cursor) {
                     None => "Done".to_string(),
                     Some(Item::Rec { contig, pos, g }) => format!("record {contig}:{pos} {g:?}"),
-                    Some(Item::SourceError { contig, pos }) => format!("FAULT source error at {contig}:{pos}"),
+                    Some(Item::SourceError { contig, pos, kind }) => format!("FAULT source error (kind {kind}) at {contig}:{pos}"),
                     Some(Item::DoneOnce) => "FAULT Done (once), stream continues".to_string(),
                 }
             ));
@@ -130,11 +137,18 @@ impl genotype::Reader for SimGenotypeSource {
                         st.delivered += 1;
                         ReadStatus::Read(g.iter().map(|&x| to_result(x)).collect())
                     }
-                    Item::SourceError { contig, pos } => {
+                    Item::SourceError { contig, pos, kind } => {
                         self.contig = contig.clone();
                         self.pos = *pos;
                         st.errors_fired += 1;
-                        ReadStatus::Error(io::Error::new(io::ErrorKind::Other, "simulated source error"))
+                        let k = match kind {
+                            1 => io::ErrorKind::UnexpectedEof,
+                            2 => io::ErrorKind::InvalidData,
+                            3 => io::ErrorKind::Interrupted,
+                            4 => io::ErrorKind::TimedOut,
+                            _ => io::ErrorKind::Other,
+                        };
+                        ReadStatus::Error(io::Error::new(k, "simulated source error"))
                     }
                     Item::DoneOnce => {
                         st.done_fired += 1;
